@@ -39,45 +39,47 @@ Theorem C19_binomial_is_bernoulli_sum :
   (indicator_count n p u pos <= n)%nat.
 Proof. exact binomial_is_bernoulli_sum. Qed.
 
-(* The single-cell loop of a lineage simulation (coq/Model/Lineage.v: reactions, volume / division / death rules, volume /
-   division / death events; every stream, fuel, grid, cell state).
+(* The single-cell loop of a lineage simulation (coq/Model/Lineage.v: reactions, volume / division / death rules with and without their normal noise terms,
+   volume / division / death events; every stream, fuel, grid, cell state).
 
    Reals: a cell that starts with a positive volume reports only positive volumes, one per row -- also when no reaction
    can fire, when it divides or dies, and when it does so before anything was recorded. *)
 Theorem C19_cell_volumes_positive :
-  forall (l : lin R) eps9 eps7 fuel ts t_cur t_init V V_init x0 u pos st, 0 < V ->
-  lssa_simulate ArithR eps9 eps7 fuel l ts t_cur t_init V V_init x0 u pos = Done st ->
+  forall (l : lin R) pi2 eps9 eps7 fuel ts t_cur t_init V V_init x0 u pos st, 0 < V ->
+  lssa_simulate ArithR pi2 eps9 eps7 fuel l ts t_cur t_init V V_init x0 u pos = Done st ->
   Forall (fun v => 0 < v) (ls_vols st) /\ length (ls_rows st) = length (ls_vols st).
 Proof. exact lssa_volumes_positive. Qed.
 
 (* Any arithmetic: every reported (row, volume) pair was actually produced by the loop: the volume is the initial one or a
    value that passed the loop's positivity test, and the row is a rule pass (with that volume) over a state the cell was in. *)
 Theorem C19_cell_rows_were_simulated :
-  forall F (A : Arith F) eps9 eps7 (l : lin F) fuel ts t_cur t_init V V_init x0 u pos st,
-  lssa_simulate A eps9 eps7 fuel l ts t_cur t_init V V_init x0 u pos = Done st ->
+  forall F (A : Arith F) pi2 eps9 eps7 (l : lin F) fuel ts t_cur t_init V V_init x0 u pos st,
+  lssa_simulate A pi2 eps9 eps7 fuel l ts t_cur t_init V V_init x0 u pos = Done st ->
   exists seen, In V seen /\ (forall v, In v seen -> v = V \/ fleb A v (f0 A) = false) /\
                length (ls_rows st) = length (ls_vols st) /\ Forall2 (row_ok A l seen) (ls_rows st) (ls_vols st).
 Proof. exact @lssa_rows_ok. Qed.
 
 (* Without rules on species: consecutive rows of a cell are linked by reaction paths from the state it was born with. *)
 Theorem C19_cell_rows_are_paths :
-  forall F (A : Arith F) eps9 eps7 (l : lin F), sm_rules (ln_sim l) = [] ->
+  forall F (A : Arith F) pi2 eps9 eps7 (l : lin F), sm_rules (ln_sim l) = [] ->
   forall fuel ts t_cur t_init V V_init x0 u pos st,
-  lssa_simulate A eps9 eps7 fuel l ts t_cur t_init V V_init x0 u pos = Done st -> chain A (ln_sim l) x0 (ls_rows st).
+  lssa_simulate A pi2 eps9 eps7 fuel l ts t_cur t_init V V_init x0 u pos = Done st -> chain A (ln_sim l) x0 (ls_rows st).
 Proof. exact @lssa_rows_are_paths. Qed.
 
 (* "Also after all reactions have become impossible" (reals, 0 < eps7): an iteration in which the total propensity is 0 and no
-   rule stops the cell consumes no random number, changes no count and moves the clock to the next queued time (advancing the
+   rule stops the cell samples no reaction (the only uniforms it may consume are the noise terms of its rules), changes no count and moves the clock to the next queued time (advancing the
    queue by dt) or to the final time -- it never enters the reaction branch (defects F11 / F19 were such moves). *)
 Theorem C19_idle_cell_never_fires :
-  forall (l : lin R) eps9 eps7 dt final t_init V_init u st st' tnext rest,
+  forall (l : lin R) pi2 eps9 eps7 dt final t_init V_init u st st' tnext rest,
   0 < eps7 -> ls_todo st = tnext :: rest ->
   let '(x1, p1) := apply_rules ArithR (sm_rules (ln_sim l)) (Some (ls_V st)) (ls_x st, ls_p st) (ls_time st) dt (ls_rule_step st) in
-  first_true (fun r => krule_check ArithR eps9 r x1 p1 (ls_time st) (ls_V st)) (ln_krules l) 0%Z = (-1)%Z ->
-  first_true (fun r => drule_check ArithR eps9 r x1 p1 (ls_time st) (ls_V st) t_init V_init) (ln_drules l) 0%Z = (-1)%Z ->
+  let '(dead, posa) := first_true (fun r => krule_check ArithR pi2 eps9 r x1 p1 (ls_time st) (ls_V st) u) (ln_krules l) 0%Z (ls_pos st) in
+  let '(divd, posb) := first_true (fun r => drule_check ArithR pi2 eps9 r x1 p1 (ls_time st) (ls_V st) t_init V_init u) (ln_drules l) 0%Z posa in
+  dead = (-1)%Z -> divd = (-1)%Z ->
   array_sum ArithR (lin_props ArithR l x1 p1 (ls_V st) (ls_time st)) = 0 ->
-  lssa_iter ArithR eps9 eps7 l dt final t_init V_init u st = Done st' ->
-  ls_pos st' = ls_pos st /\ ls_x st' = x1 /\ ls_rule_step st' = true /\ ls_divided st' = (-1)%Z /\ ls_dead st' = (-1)%Z /\
+  lssa_iter ArithR pi2 eps9 eps7 l dt final t_init V_init u st = Done st' ->
+  ls_x st' = x1 /\ ls_rule_step st' = true /\ ls_divided st' = (-1)%Z /\ ls_dead st' = (-1)%Z /\
+  ls_pos st' = snd (apply_volume_rules ArithR pi2 (ln_vrules l) x1 p1 (ls_V st) (ls_time st') dt u posb) /\
   ((ls_time st' = ls_next_q st /\ ls_next_q st' = ls_next_q st + dt) \/ ls_time st' = final).
 Proof. exact lssa_idle_iteration. Qed.
 
@@ -86,12 +88,12 @@ Proof. exact lssa_idle_iteration. Qed.
    of initial cells): in the recorded lineage every cell that names a parent is one of the two distinct daughters that parent
    lists and was recorded after it, and the two daughters a cell lists both name it as their parent. *)
 Theorem C19_lineage_links_mutual :
-  forall F (A : Arith F) eps9 eps7 eps12 cfuel fuel (l : lin F) sps ts cells u pos w,
-  simulate_lineage A eps9 eps7 eps12 cfuel fuel l sps ts cells u pos = Done w ->
+  forall F (A : Arith F) pi2 eps9 eps7 eps12 cfuel fuel (l : lin F) sps ts cells u pos w,
+  simulate_lineage A pi2 eps9 eps7 eps12 cfuel fuel l sps ts cells u pos = Done w ->
   parent_ok (w_lineage w) /\ daughters_ok (w_lineage w).
 Proof. exact @lineage_links_mutual. Qed.
 
-(* Not mechanised (C19_partial): that a Bernoulli sum has the Binomial(n,p) law; rule / event noise (normal draws), custom partition functions -- decided by the harness on simulated lineages. *)
+(* Not mechanised (C19_partial): that a Bernoulli sum has the Binomial(n,p) law; custom partition functions and custom rule classes -- decided by the harness on simulated lineages. *)
 
 Print Assumptions C19_general_splitter.
 Print Assumptions C19_lineage_splitter.
